@@ -22,7 +22,7 @@ def run_coq_file(path, timeout=900):
                        stdout=subprocess.PIPE, stderr=subprocess.PIPE)
     return p.returncode, p.stdout.decode('utf-8', 'replace'), p.stderr.decode('utf-8', 'replace')
 
-RESULT_RE = re.compile(r'=\s*\(\s*(\d+)%N\s*,\s*([A-Za-z_0-9 ()%;\[\]]+?)\s*\)\s*:', re.S)
+RESULT_RE = re.compile(r'=\s*\(\s*(\d+)%N\s*,\s*([A-Za-z_0-9 ()%;,\[\]"\-\n]+?)\s*\)\s*:', re.S)
 
 def eval_cases(cases, wd, tag, header='From GV.Model Require Import Check.\n', per_file=60, jobs=NPROC):
     """cases: list of (id:int, defs:str, expr:str). For each case the file contains
@@ -50,3 +50,11 @@ def eval_cases(cases, wd, tag, header='From GV.Model Require Import Check.\n', p
             if rc != 0:
                 errors.append((path, se[-2000:]))
     return out, errors
+
+def run_coq_file_in_project(rel, timeout=900):
+    """recompile one project file in place (dependencies must be built): used to capture
+    the Print Assumptions output of a Props file on every run"""
+    p = subprocess.run(['coqc', '-Q', 'Model', 'GV.Model', '-Q', 'Proofs', 'GV.Proofs', '-Q', 'Props', 'GV.Props',
+                        '-Q', 'Generated', 'GV.Generated', '-w', '-notation-overridden,-deprecated-hint-without-locality',
+                        rel], cwd=COQDIR, timeout=timeout, stdout=subprocess.PIPE, stderr=subprocess.PIPE)
+    return p.returncode, p.stdout.decode('utf-8', 'replace'), p.stderr.decode('utf-8', 'replace')
